@@ -8,9 +8,12 @@ datagram = its injection time.  Oracle (function ``judge``): elapsed virtual tim
 positive wait and no time passes; TimeoutError only if the completion moment is not strictly inside [start, start+budget)
 (exact ties are generated on purpose and accept both outcomes); an iterator's budget is the sum over its next() calls.
 
-Structure for later extension: every harness builds a ``Ctx`` (selector hooks + oracle state) and runs its operations through
-``Ctx.run_call`` — a threaded harness (second actor holding the client's locks) only has to add the lock-release time to
-the "completable at" computation and run the same ``judge``.  Lock contention and SSLStreamTransport are not covered here.
+Every harness builds a ``Ctx`` (selector hooks + oracle state) and judges its calls with ``Ctx.judge``.
+Lock contention (``thr-*`` harnesses, vsim.threads baton scheduler): a second simulated thread sits inside a blocking call of
+the same TCPNetworkClient / UDPNetworkClient and holds its receive or send lock until a chosen virtual time L; the judged
+caller (thread 0) needs the lock AND its own data; a zero budget must not even wait for the lock.
+Blocking TLS (``sync-tls``): SSLStreamTransport over a real socketpair bridged to the reference TLS peer; cipher-text of one
+record per message is drip-fed on an explicit schedule; a record is completable when its last cipher-text byte was written.
 """
 from __future__ import annotations
 
@@ -44,24 +47,40 @@ RULE = (
     "bursts, long silence then everything, last byte never}; d in {1,2,4,8}/64 s; retry_interval in {inf, d/2, 3d}; timeout in "
     "{None, 0, exact tie with the completion moment, before it by d/2|d|3d, after it by d/2, after it by 10d, d/2|d|3d}; "
     "spurious early select wake-ups, injected EAGAIN/EINTR; send: link capacity 4..64 bytes, peer read credit granted in steps at "
-    "drawn times, short writes; non-trivial = a fault kind fired and >=1 operation completed with a value"
+    "drawn times, short writes; thr-*: a holder thread inside recv_packet(None) / back-pressured send_packet(None) of the same "
+    "client keeps the receive / send lock until L in {1,4,10,30}d, the caller starts at {1,2,5,12,40}d, scheduler switch_den in "
+    "{2,3,6}; sync-tls: TLS 1.2/1.3, library as client or server, handshake flights dripped by a (sizes, delays) script with "
+    "handshake_timeout in {60, 8d, 40d}, then 1-3 records fed byte-wise / in bursts / after a silence / last byte never; "
+    "non-trivial = a fault kind fired and >=1 operation completed with a value"
 )
 COMPONENTS_REAL = [
     "easynetwork.lowlevel.api_sync.transports.base_selector._retry",
     "easynetwork.lowlevel.api_sync.transports.socket.SocketStreamTransport / SocketDatagramTransport",
     "easynetwork.lowlevel.api_sync.transports.abc.StreamWriteTransport.send_all",
     "easynetwork.lowlevel.api_sync.endpoints.stream / datagram",
-    "easynetwork.lowlevel._utils.ElapsedTime, lock_with_timeout (uncontended)",
+    "easynetwork.lowlevel._utils.ElapsedTime, lock_with_timeout (uncontended and contended by a second simulated thread)",
+    "easynetwork.lowlevel.api_sync.transports.socket.SSLStreamTransport (handshake, recv, send_all) + OpenSSL via ssl",
+    "CPython threading (Lock via vsim.threads.SimLock, Thread start/join)",
     "easynetwork.clients.tcp / udp / async_tcp / async_udp, easynetwork.clients._iter",
     "easynetwork asyncio backend (timeout scopes, stream and datagram endpoints), CPython asyncio loop",
 ]
-COMPONENTS_STUB = ["socket (SimSocket)", "selector (SimSelector subclass with early spurious wake-ups)", "time.perf_counter / loop.time (world clock)", "peer (scripted, credit-based reader)"]
+COMPONENTS_STUB = [
+    "socket (SimSocket; for TLS a real AF_UNIX socketpair pumped by the simulator)",
+    "selector (SimSelector subclass with early spurious wake-ups)",
+    "time.perf_counter / loop.time (world clock)",
+    "peer (scripted, credit-based reader; reference ssl.SSLObject peer for TLS)",
+    "OS thread scheduling (baton scheduler: one runnable thread at a time, switches at lock/select/start/join/sleep)",
+]
 ASSUMPTIONS = [
     "processing takes no virtual time: the clock only moves inside select()/sleep",
     "completion moment of a send assumes a greedy sender (writes whenever the socket is writable); the library is one",
     "asyncio engine: the arrival model assumes a timed-out receive loses no bytes (C10; D5 fixed in /repo e60fd44), so ties "
     "and zero budgets are generated on the buffer-filling path too",
-    "lock contention by a second thread and SSLStreamTransport are not covered by this module yet",
+    "thr-*: the holder finishes exactly at L (checked: HARNESS-ERROR otherwise); only the judged caller can contend on a lock, so "
+    "world.stats['lock_contention'] during its call counts its own blocking lock waits; select() calls of the holder are not charged",
+    "sync-tls: OpenSSL returns a record as soon as all its cipher-text is readable and one recv returns at most one record "
+    "(bufsize 4096 >= payload); for timeout 0 only the non-blocking clause is asserted; for the handshake only the budget clause; "
+    "send_all never has to wait (socketpair buffer >> data), so it is completable at once",
 ]
 BUDGET = {"quick": 40, "thorough": 480}
 
@@ -581,6 +600,119 @@ def _h_aio_iter(world: World, kind: str) -> None:
         run_async(world, main)
 
 
+# ============================================================================================== harness: blocking TLS
+def _h_sync_tls(world: World) -> None:
+    """SSLStreamTransport over a real socketpair whose far end is the reference TLS peer (vsim.tls.RealTLSPeer).
+
+    Handshake: the peer's own cyclic (sizes, delays) script drips its flights; only the budget clause is judged for the
+    constructor (handshake_timeout) because the completion moment of a handshake is not decidable from outside.
+    Data phase: the peer encrypts one record per message up front and this harness feeds the cipher-text to the library's
+    socket on an explicit schedule (same arrival kinds as the plain harness), so a record is completable exactly when its
+    last cipher-text byte has been written to the socketpair (OpenSSL returns a record only when it is whole; one recv
+    returns at most one record, bufsize >= every payload)."""
+    from easynetwork.lowlevel.api_sync.transports.socket import SSLStreamTransport
+
+    from vsim.tls import RealTLSPeer, make_context
+
+    calm = world.choose("swarm", 3) == 0
+    d, retry = _draw_common(world)
+    version = world.pick("version", ["1.3", "1.2"])
+    lib_server = bool(world.choose("lib_server", 2))
+    if calm:
+        sizes, delays = [1 << 30], [0]
+    else:
+        sizes = [world.pick("hs.size", [1 << 30, 1, 7, 100, 600]) for _ in range(1 + world.choose("hs.nsizes", 3))]
+        delays = [world.choose("hs.delay", 3) for _ in range(1 + world.choose("hs.ndelays", 3))]
+        sizes = [max(x, 40) if any(delays) else x for x in sizes]  # bound the virtual length of a delayed handshake
+        if sizes != [1 << 30]:
+            world.fault("frag")
+        if any(delays):
+            world.fault("delay")
+    hs_timeout = world.pick("hs.timeout", (60.0, 60.0, 8 * d, 40 * d))
+    ctx = Ctx(world, f"sync-tls/{version}")
+    if not calm:
+        ctx.early_den = draw_rate(world, "sw.early", (0, 0, 6, 2))
+        ctx.early_steps = (d / 4, d / 2, d, 3 * d)
+    n = 1 + world.choose("npkt", 3)
+    rng = world.sub_rng("payload")
+    payloads = [bytes(rng.randrange(256) for _ in range(1 + rng.randrange(120))) for _ in range(n)]
+    peer = RealTLSPeer(world, server_side=not lib_server, version=version, sizes=sizes, delays=delays)
+    world.notes.update(target="tls", version=version, lib_server=lib_server, delta=d, retry_interval=retry, hs_script=(sizes, delays), hs_timeout=hs_timeout, early_den=ctx.early_den)
+    tr = None
+    try:
+        with sync_engine(world, selector_cls=C11Selector) as make_selector:
+            world.log("call", ctx.site, "handshake", hs_timeout)
+            s, p0 = ctx.begin("handshake", hs_timeout)
+            try:
+                tr = SSLStreamTransport(
+                    peer.lib_sock,
+                    make_context(lib_server, version),
+                    retry,
+                    handshake_timeout=hs_timeout,
+                    server_side=lib_server,
+                    server_hostname=None if lib_server else "sim.host",
+                    standard_compatible=False,
+                    selector_factory=make_selector,
+                )
+            except TimeoutError:
+                ctx.end()
+                ctx.judge("handshake", hs_timeout, s, world.now, ctx.pos_waits - p0, "timeout", None)
+                return
+            ctx.end()
+            ctx.judge("handshake", hs_timeout, s, world.now, ctx.pos_waits - p0, "value", None)
+            # ---- take over the delivery of the peer's cipher-text
+            peer.pump()
+            if peer.out_pending:
+                peer.far.send(bytes(peer.out_pending))
+                peer.out_pending.clear()
+            peer._schedule = lambda: None  # type: ignore[method-assign]
+            records = []
+            for pl in payloads:
+                peer.engine.write(pl)
+                records.append(peer.engine.take_output())
+            if any(not r for r in records):
+                from vsim.world import HarnessError
+
+                raise HarnessError("reference TLS engine produced no record for a write after the handshake")
+            writes, tcs = _arrivals(world, records, d, calm)
+            h = world.now
+
+            def far_send(data: bytes) -> None:
+                k = peer.far.send(data)
+                if k != len(data):
+                    from vsim.world import HarnessError
+
+                    raise HarnessError("socketpair buffer full")
+                world.log("vis", "real", k)
+
+            for t, data in writes:
+                world.at(h + t, lambda data=data: far_send(data))
+            tcs = [None if t is None else h + t for t in tcs]
+            world.notes.update(completable_at=list(tcs), record_lengths=[len(r) for r in records])
+            got = 0
+            for _ in range(1 + world.choose("ops", 4)):
+                vsleep(world, world.pick("pause", (0, 1, 5)) * d)
+                if world.choose("op.send", 4) == 3:
+                    data = b"x" * world.pick("send.size", (1, 100, 5000))
+                    T = _choose_T(world, world.now, world.now, d)  # the socketpair buffer is never full here: completable at once
+                    _sync_call(ctx, "send_all", T, world.now, lambda: tr.send_all(data, math.inf if T is None else T))
+                    continue
+                tc = tcs[got] if got < len(tcs) else None
+                T = _choose_T(world, world.now, tc, d)
+                box: list[bytes] = []
+                out = _sync_call(ctx, "recv", T, tc, lambda: box.append(tr.recv(4096, math.inf if T is None else T)))
+                if out == "value":
+                    if got >= len(payloads) or box[0] != payloads[got]:
+                        ctx.fail("unexpected-exception", "recv", f"recv returned {box[0][:20]!r}… ({len(box[0])} bytes), expected record #{got} ({len(payloads[got]) if got < len(payloads) else None} bytes): the world model of this harness does not hold")
+                    got += 1
+    finally:
+        try:
+            if tr is not None and not tr.is_closed():
+                tr.close()
+        finally:
+            peer.dispose()
+
+
 # ============================================================================================== harness: lock contention
 def _h_thr(world: World, kind: str) -> None:
     """A second simulated thread (the holder) sits inside a blocking call of the SAME client and therefore holds its
@@ -742,6 +874,7 @@ HARNESSES = [
     Harness("sync-udp", _h_sync_udp, weight=2),
     Harness("aio-iter-tcp", lambda w: _h_aio_iter(w, "tcp"), weight=2),
     Harness("aio-iter-udp", lambda w: _h_aio_iter(w, "udp"), weight=1),
+    Harness("sync-tls", _h_sync_tls, weight=2),
     Harness("thr-tcp-recv", lambda w: _h_thr(w, "tcp-recv"), weight=2),
     Harness("thr-tcp-send", lambda w: _h_thr(w, "tcp-send"), weight=1),
     Harness("thr-udp-recv", lambda w: _h_thr(w, "udp-recv"), weight=1),
